@@ -99,6 +99,15 @@ EMPHASIS['9'] = EMPHASIS['8'] + (' (A previous round already worked under this r
                                     'modules the anchored code imports from.)')
 
 
+EMPHASIS['10'] = EMPHASIS['8'] + (' (Two previous rounds already worked under this rule; the list below includes their '
+                                     'edits. What is left: statements inside large functions far from every earlier '
+                                     'edit, the less-used branches (ALF names, sparse storage, missing optional files, '
+                                     'compressed readers), the other modules the anchored code imports from '
+                                     '(phylib/utils/*, phylib/io/array.py, phylib/io/traces.py, phylib/io/model.py), '
+                                     'and class attributes / module constants. A change that makes two public routes to '
+                                     'the same result disagree is especially welcome.)')
+
+
 def touched_functions(pid):
     """Function / class names that appear in the hunk headers of the earlier patches of a property."""
     names = {}
@@ -153,7 +162,7 @@ def main():
             what = re.sub(r'^#\s*', '', m.get('what', ''))
             earlier.append('- %s: %s  %s' % (', '.join(m.get('files_changed', [])), what, notes))
         emphasis = EMPHASIS.get(rnd, EMPHASIS['default'])
-        if rnd in ('8', '9'):
+        if rnd in ('8', '9', '10'):
             tf = touched_functions(pid)
             emphasis += ' Already edited: ' + '; '.join(
                 '%s: %s' % (f, ', '.join(sorted(v))) for f, v in sorted(tf.items())) + '.'
